@@ -92,6 +92,8 @@ def model_inputs(model, names, extra_prefixes=()):
     """values of the named inputs in a z3 model (others keep their defaults in the replay)"""
     if model is None:
         return {}
+    if isinstance(model, dict):
+        return {k: v for k, v in model.items() if k in names or (extra_prefixes and k.startswith(tuple(extra_prefixes)))}
     out = {}
     for d in model.decls():
         if d.arity() != 0:
@@ -230,7 +232,10 @@ def pipeflow_worker(job, pipeflow_kwargs, oblig_fn, fixed_point=False, witnesses
                 job["_nonvacuous"] = job.get("_nonvacuous", 0) + 1
             r, m, how = D.check(hy_min if hy_min is not None else hy_full, ob["goal"],
                                 sample="%s path %d %s" % (job["name"], pi, ob["label"]),
-                                timeout_ms=ob.get("timeout_ms"))
+                                timeout_ms=ob.get("timeout_ms"),
+                                witness=(p.witness, H.witness_funcs()) if (p.witness is not None and not fixed_point) else None)
+            if how == 'witness':
+                hy_min = None
             if r == 'sat' and hy_min is not None:
                 r2, m2, _ = D.check(hy_full, ob["goal"], timeout_ms=5000)
                 if r2 == 'unsat':
